@@ -70,7 +70,7 @@ class Ctx:
         """run another property's rule function and import the obligations of the listed rule ids (a rule shared by two
         properties is evaluated once per check run, on the same facts)"""
         if module_run in _ACTIVE_INCLUDES:
-            raise RuntimeError('cyclic rule inclusion through %s' % getattr(module_run, '__module__', module_run))
+            return      # already being evaluated further up (A includes B includes A): the outer evaluation covers it
         _ACTIVE_INCLUDES.append(module_run)
         try:
             sub = Ctx(self.prog, self.prop, self.tier)
